@@ -129,7 +129,38 @@ fn show_map(m: &PaMap) -> String {
     for (k, pa) in m.attributes().iter() {
         parts.push(format!("{}={}", k, show(pa)));
     }
-    format!("{}#{}", parts.join(";"), m.bytes_len())
+    match map_obs(m) {
+        None => format!("{}#{}", parts.join(";"), m.bytes_len()),
+        Some(why) => format!("{}#{}_OBS-BAD:{}", parts.join(";"), m.bytes_len(), why),
+    }
+}
+
+/// (tie coverage) the other public views of the same map agree with `attributes()`: is_empty / len,
+/// get_by_type_code / get_mut_by_type_code for all 256 codes, into_attributes
+fn map_obs(m: &PaMap) -> Option<String> {
+    if m.is_empty() != (m.len() == 0) || m.len() != m.attributes().len() { return Some("is_empty/len".into()); }
+    let mut cl = m.clone();
+    for c in 0..=255u8 {
+        let want = m.attributes().get(&c);
+        if m.get_by_type_code(c) != want { return Some(format!("get_by_type_code({})", c)); }
+        if cl.get_mut_by_type_code(c).map(|x| &*x) != want { return Some(format!("get_mut_by_type_code({})", c)); }
+    }
+    if &m.clone().into_attributes() != m.attributes() { return Some("into_attributes".into()); }
+    None
+}
+
+/// (tie coverage) the accessors of a workshop built from an UPDATE: nlri / into_nlri give back the NLRI it was
+/// built for, into_route carries the NLRI and the attribute map, validate accepts exactly a workshop with a next hop
+fn ws_obs<N: AfiSafiNlri + Clone + PartialEq>(r: &RouteWorkshop<N>, n: &N) -> Option<&'static str> {
+    if r.nlri() != n { return Some("nlri()"); }
+    if &r.clone().into_nlri() != n { return Some("into_nlri()"); }
+    let route = r.clone().into_route();
+    if route.nlri() != n || route.attributes() != r.attributes() { return Some("into_route()"); }
+    if r.validate().is_ok() != r.nexthop().is_some() { return Some("validate()"); }
+    // ... and a workshop that was never given a next hop is not valid (doc of RouteWorkshop::validate)
+    let fresh = RouteWorkshop::new(n.clone());
+    if fresh.nexthop().is_some() || fresh.validate().is_ok() || fresh.nlri() != n { return Some("new()/validate()"); }
+    None
 }
 
 fn parse_spec(f: &[&str]) -> Option<PathAttribute> {
@@ -254,6 +285,16 @@ fn pm_tok(a: &mut PaMap, b: &mut PaMap, tok: &str) -> Option<String> {
                 None => Some("Orej".into()),
                 Some(pdu) => {
                     let owned = OwnedPathAttributes::from(pdu.path_attributes().unwrap());
+                    // (tie coverage) the other constructors / destructors of the owned form: new, From<(ppi, Vec)>,
+                    // pdu_parse_info, into_vec (= the attribute section of the PDU, octet for octet)
+                    {
+                        let ppi = owned.pdu_parse_info();
+                        let raw = owned.clone().into_vec();
+                        if OwnedPathAttributes::new(ppi, raw.clone()) != owned || OwnedPathAttributes::from((ppi, raw.clone())) != owned
+                            || Some(raw) != unhex(p).and_then(|b| ref_attr_section(&b)) {
+                            return Some("O_OBS-BAD:new/from/into_vec".into());
+                        }
+                    }
                     let m = match PaMap::from_update_pdu(&pdu) { Ok(m) => m, Err(_) => return Some("Oerr".into()) };
                     let mut o = Vec::new();
                     let mut g = Vec::new();
@@ -393,8 +434,11 @@ fn ws_tok(w: &mut Ws, tok: &str) -> Option<String> {
                     let it = pdu.typed_announcements::<_, $N>();
                     let n = match it { Ok(Some(mut it)) => it.next(), _ => None };
                     match n {
-                        Some(Ok(n)) => match RouteWorkshop::from_update_pdu(n, &pdu) {
-                            Ok(r) => { *w = Ws::$V(r); Some(format!("Uok|{}", show_ws(w))) }
+                        Some(Ok(n)) => match RouteWorkshop::from_update_pdu(n.clone(), &pdu) {
+                            Ok(r) => {
+                                if let Some(why) = ws_obs(&r, &n) { return Some(format!("U_OBS-BAD:{}", why)); }
+                                *w = Ws::$V(r); Some(format!("Uok|{}", show_ws(w)))
+                            }
                             Err(_) => Some("Uerr".into()),
                         },
                         _ => Some("Unonlri".into()),
@@ -409,8 +453,9 @@ fn ws_tok(w: &mut Ws, tok: &str) -> Option<String> {
                     let it = pdu.typed_announcements::<_, $N>();
                     let n = match it { Ok(Some(mut it)) => it.next(), _ => None };
                     match n {
-                        Some(Ok(n)) => match RouteWorkshop::from_update_pdu(n, &pdu) {
+                        Some(Ok(n)) => match RouteWorkshop::from_update_pdu(n.clone(), &pdu) {
                             Ok(r) => {
+                                if let Some(why) = ws_obs(&r, &n) { return Some(format!("U_OBS-BAD:{}", why)); }
                                 let shown = format!("nh={}|{}", show_nh(r.nexthop()), show_map(r.attributes()));
                                 let mut t = match new_ws() { Ws::V4(t) => t, _ => unreachable!() };
                                 t.set_attributes(r.attributes().clone());
@@ -1474,6 +1519,7 @@ impl Prop for C17 {
     fn oracle(&self, line: &str, reply: &str) -> Result<(), String> {
         if reply == "bad-op" { return Ok(()); }
         if reply == "panic" { return Err("panic in a map/workshop operation".into()); }
+        if let Some(i) = reply.find("_OBS-BAD:") { return Err(format!("two public views of the same map / workshop / owned attributes disagree: {}", &reply[i + 9..].chars().take(60).collect::<String>())); }
         let toks: Vec<&str> = line.split(' ').collect();
         let reps: Vec<&str> = if reply.is_empty() { vec![] } else { reply.split(' ').collect() };
         if reps.len() != toks.len() - 1 { return Err("reply count".into()); }
